@@ -98,6 +98,12 @@ def ovsToNativeAtomic (t : AType) (a : Atom) : Except String Atom :=
   | .uuid, .uuid u => .ok (.uuid u)
   | _, _ => .error "wrong type"
 
+def ovsPairToNative (kt vt : AType) (p : Atom × Atom) : Except String (Atom × Atom) :=
+  match ovsToNativeAtomic kt p.1, ovsToNativeAtomic vt p.2 with
+  | .ok k, .ok v => .ok (k, v)
+  | .error e, _ => .error e
+  | _, .error e => .error e
+
 /-- `OvsToNative(column, ovsElem)` -/
 def ovsToNative (cs : ColSchema) (o : OvsVal) : Except String Value :=
   match cs.kind, o with
@@ -111,12 +117,10 @@ def ovsToNative (cs : ColSchema) (o : OvsVal) : Except String Value :=
   | .set, .set l => do pure (.set (← l.mapM (ovsToNativeAtomic cs.key)))
   | .set, .atom a => do pure (.set [← ovsToNativeAtomic cs.key a])
   | .set, .map _ => .error "wrong type"
-  | .map, .map m => do
-    let ps ← m.mapM (fun p => do
-      let k ← ovsToNativeAtomic cs.key p.1
-      let v ← ovsToNativeAtomic cs.val p.2
-      pure (k, v))
-    pure (.map ps)
+  | .map, .map m =>
+    match m.mapM (ovsPairToNative cs.key cs.val) with
+    | .ok ps => .ok (.map ps)
+    | .error e => .error e
   | .map, _ => .error "wrong type"
 
 /-- `NativeToOvs(column, rawElem)` -/
